@@ -57,6 +57,10 @@ def run(ch: Checker) -> None:
     ch.rule('C11.6', 'get_ext_config emits IP:<addr> when the name parses as an IP address and DNS:<name> otherwise', 1)
     ch.rule('C11.8', 'who may consult the flags-only predicate: inside HttpProxyPlugin, `tls_interception_enabled` (configuration only) is read by _tls_intercept_enabled alone; '
                      'every decision between "parse as HTTP" and "relay opaquely" uses _tls_intercept_enabled, which also honours a plugin\'s opt-out', 3)
+    ch.rule('C11.9', 'a TLS record still incomplete (ssl.SSLWantReadError from a receive) means retry, not teardown: in HttpProtocolHandler.handle_readables, HttpProxyPlugin.read_from_descriptors and '
+                     'TcpUpstreamConnectionHandler.read_from_descriptors the first handler able to catch it names only SSLWant* and returns False', 3)
+    ch.rule('C11.10', 'scratch files handed to openssl (extension / request config) get a name that is unique per invocation (uuid / mkstemp / NamedTemporaryFile): the leaf\'s subjectAltName is read '
+                      'from that file at signing time, and the lock that serialises generation is per process only', 2)
     ch.rule('C11.7', '_tls_intercept_enabled returns False as soon as a plugin\'s do_intercept() is False and only considers plugins when interception is configured', 1)
 
     # ---------------- C11.1
@@ -327,6 +331,38 @@ def run(ch: Checker) -> None:
                         else:
                             bad = ('a DNS: alternative name is emitted for a name that parsed as an IP address: clients reject the certificate for an IP host', p.describe())
     ch.check(bad is None and ip_ok and dns_ok, 'C11.6', gec, 'SAN type', 'IP: for address literals, DNS: otherwise', bad[0] if bad else 'the SAN type does not depend on whether the name is an IP address (IP branch %s, DNS fallback %s)' % (ip_ok, dns_ok), witness=bad[1] if bad else None)
+
+    # ---------------- C11.9
+    from .common import tls_retry_check
+    tls_retry_check(ch, 'C11.9')
+
+    # ---------------- C11.10 scratch config files
+    pki = prog.module('proxy.common.pki')
+    UNIQUE_SRC = ('uuid.uuid4', 'uuid.uuid1', 'tempfile.mkstemp', 'tempfile.NamedTemporaryFile', 'tempfile.mkdtemp', 'tempfile.TemporaryDirectory', 'secrets.token_hex', 'os.urandom')
+    n10 = 0
+    for fn in prog.all_functions('proxy.common.pki'):
+        opens = [c for c in walk_no_nested(fn.node) if isinstance(c, ast.Call) and attr_chain(c.func) == 'open' and len(c.args) >= 2 and isinstance(c.args[1], ast.Constant) and 'w' in str(c.args[1].value)]
+        if not opens:
+            continue
+        gp = cfg_of(fn, prog, exc_edges=False)
+        verdict: Dict[int, Tuple[ast.Call, bool, str]] = {}
+        for p in fpaths(gp):
+            sym = Sym(p)
+            for i, nd, lab in p.executed():
+                if nd.ast is None:
+                    continue
+                for c in walk_no_nested(nd.ast if nd.kind != 'with' else nd.ast):
+                    if any(c is o for o in opens):
+                        v = sym.value(c.args[0], i)   # type: ignore[attr-defined]
+                        uniq = any(isinstance(x, ast.Call) and (attr_chain(x.func) or '') in UNIQUE_SRC for x in ast.walk(v))
+                        verdict[id(c)] = (c, uniq, norm(v)[:80])   # type: ignore[assignment]
+        for c, uniq, txt in verdict.values():
+            n10 += 1
+            ch.check(uniq, 'C11.10', fn, c, 'scratch file name unique per invocation',
+                     'the openssl scratch file is written to %s, the same path for every invocation: two worker processes signing leaves for two new hosts at the same moment overwrite each '
+                     'other\'s extension file, and host X\'s certificate is issued (and cached) with host Y\'s subjectAltName' % txt)
+    if n10 == 0:
+        ch.bad('C11.10', None, 'scratch files', 'no scratch config file written in proxy/common/pki.py', module_rel='proxy/common/pki.py')
 
     # ---------------- C11.8
     _who_reads_flags_only(ch)
